@@ -966,10 +966,7 @@ impl CMach {
             let m2 = (self.api.mref)(self.m);
             (self.api.munref)(m2);
             // a manager released before its collector thread has parked leaks that thread
-            let min = std::time::Duration::from_micros(oxsim::run::manager_min_lifetime_us());
-            while self.created.elapsed() < min {
-                std::thread::yield_now();
-            }
+            oxsim::run::await_manager_lifetime(self.created);
             (self.api.munref)(self.m);
         }
     }
